@@ -1263,3 +1263,139 @@ func TestVerifC04Random(t *testing.T) {
 		return runRandom(g, i, p.Seed*1000003+int64(i), p.MaxK, p.MaxRep)
 	}, outp)
 }
+
+// ---------------------------------------------------------------- catch-up race (free running, real concurrency)
+
+// TestVerifC04CatchUp: a client resumes with a lastseen this node does not have (compacted away here, or seen
+// on another node) and that is newer than everything in the stream - GetNext takes the search path and finds
+// nothing newer - while the node applies the next batch N; with true parallelism, tens of thousands of times,
+// the delay between the two drawn at random.  Whatever the interleaving, the oldest batch newer than lastseen
+// is N, and GetNext must hand out N (GetMessages.tla: the search and the choice of the batch to wait behind
+// are one step); a reader that comes back with a later batch has skipped N.
+// VERIF_C04_CATCHUP = {"rounds":..,"seed":..,"par":..} -> VERIF_C04_OUT (one record per worker)
+func TestVerifC04CatchUp(t *testing.T) {
+	ps := os.Getenv("VERIF_C04_CATCHUP")
+	outp := os.Getenv("VERIF_C04_OUT")
+	if ps == "" || outp == "" {
+		t.Skip("VERIF_C04_CATCHUP / VERIF_C04_OUT not set")
+	}
+	var p struct {
+		Rounds int   `json:"rounds"`
+		Seed   int64 `json:"seed"`
+		Par    int   `json:"par"`
+	}
+	if err := json.Unmarshal([]byte(ps), &p); err != nil {
+		t.Fatal(err)
+	}
+	if p.Par < 1 {
+		p.Par = 4
+	}
+	type rec struct {
+		Name    string   `json:"name"`
+		Rounds  int      `json:"rounds"`
+		Waited  int      `json:"waited"` // rounds in which the reader was waiting when N arrived
+		Skipped []string `json:"skipped"`
+		Err     string   `json:"err,omitempty"`
+	}
+	recs := make([]rec, p.Par)
+	var wg sync.WaitGroup
+	for w := 0; w < p.Par; w++ {
+		wg.Add(1)
+		go func(w int) {
+			defer wg.Done()
+			rc := &recs[w]
+			rc.Name = fmt.Sprintf("catchup-%d", w)
+			dir, err := os.MkdirTemp(scratch(t), "catchup-")
+			if err != nil {
+				rc.Err = err.Error()
+				return
+			}
+			defer os.RemoveAll(dir)
+			o, err := outputstream.NewOutputStream(dir)
+			if err != nil {
+				rc.Err = err.Error()
+				return
+			}
+			defer o.Close()
+			batch := func(id uint64) []outputstream.Message {
+				return []outputstream.Message{
+					{Id: robust.Id{Id: id, Reply: 1}, Data: "PING :a", InterestingFor: map[uint64]bool{1: true}},
+					{Id: robust.Id{Id: id, Reply: 2}, Data: "PING :b", InterestingFor: map[uint64]bool{1: true}},
+				}
+			}
+			id := uint64(1000)
+			if err := o.Add(batch(id)); err != nil {
+				rc.Err = err.Error()
+				return
+			}
+			r := rand.New(rand.NewSource(p.Seed*7919 + int64(w)))
+			var sink uint64
+			for round := 0; round < p.Rounds && len(rc.Skipped) < 5; round++ {
+				n := id + 10
+				ctx, cancel := context.WithCancel(context.Background())
+				got := make(chan []outputstream.Message, 1)
+				started := make(chan struct{})
+				go func() {
+					close(started)
+					got <- o.GetNext(ctx, robust.Id{Id: n - 5, Reply: 1})
+				}()
+				<-started
+				for s := r.Intn(4000); s > 0; s-- {
+					atomic.AddUint64(&sink, 1)
+				}
+				if err := o.Add(batch(n)); err != nil {
+					rc.Err = err.Error()
+					cancel()
+					return
+				}
+				id = n
+				var msgs []outputstream.Message
+				select {
+				case msgs = <-got:
+				case <-time.After(500 * time.Millisecond):
+					// still waiting although N is there: what does it wait for?
+					id = n + 10
+					if err := o.Add(batch(id)); err != nil {
+						rc.Err = err.Error()
+						cancel()
+						return
+					}
+					select {
+					case msgs = <-got:
+					case <-time.After(5 * time.Second):
+						cancel()
+						o.InterruptGetNext()
+						msgs = <-got
+						rc.Skipped = append(rc.Skipped, fmt.Sprintf("round %d: resumed with lastseen=%d.1 (not in the stream) while batch %d was being applied; batches %d and %d are applied and GetNext delivers neither", round, n-5, n, n, id))
+						rc.Rounds++
+						continue
+					}
+				}
+				cancel()
+				rc.Rounds++
+				if len(msgs) == 0 {
+					rc.Skipped = append(rc.Skipped, fmt.Sprintf("round %d: GetNext(lastseen=%d.1) returned nothing although it was not cancelled", round, n-5))
+					continue
+				}
+				switch first := msgs[0].Id.Id; {
+				case first == n:
+					rc.Waited++
+				case first > n:
+					rc.Skipped = append(rc.Skipped, fmt.Sprintf("round %d: resumed with lastseen=%d.1 (not in the stream) while batch %d was being applied; the next batch delivered is %d: batch %d is lost", round, n-5, n, first, n))
+				default:
+					rc.Skipped = append(rc.Skipped, fmt.Sprintf("round %d: GetNext(lastseen=%d.1) went back to batch %d", round, n-5, first))
+				}
+			}
+		}(w)
+	}
+	wg.Wait()
+	f, err := os.Create(outp)
+	if err != nil {
+		t.Fatal(err)
+	}
+	defer f.Close()
+	enc := json.NewEncoder(f)
+	for _, rc := range recs {
+		enc.Encode(rc)
+	}
+}
